@@ -1,1 +1,49 @@
 // harness bodies for h2 src/client.rs (compiled in-crate as `verif_h`, feature "verif")
+use super::*;
+use crate::hpack::BytesStr;
+use crate::proto::Peer as _;
+
+/// C13.cli: what the client accepts as a response head.  Reference (RFC 9113 §8.3.2):
+/// a response carries exactly one `:status` pseudo-header field and no request
+/// pseudo-header fields; anything else is malformed and must not be delivered.
+/// Presence bits symbolic, values from a concrete pool.
+pub fn c13_cli_response_pseudo() {
+    let has_status: bool = kani::any();
+    let has_method: bool = kani::any();
+    let has_scheme: bool = kani::any();
+    let has_authority: bool = kani::any();
+    let has_path: bool = kani::any();
+    let status_sel: u8 = kani::any();
+    let status = match status_sel % 4 {
+        0 => http::StatusCode::CONTINUE,
+        1 => http::StatusCode::OK,
+        2 => http::StatusCode::NO_CONTENT,
+        _ => http::StatusCode::NOT_MODIFIED,
+    };
+    let pseudo = Pseudo {
+        method: if has_method { Some(Method::GET) } else { None },
+        scheme: if has_scheme { Some(BytesStr::from_static("https")) } else { None },
+        authority: if has_authority { Some(BytesStr::from_static("a")) } else { None },
+        path: if has_path { Some(BytesStr::from_static("/")) } else { None },
+        protocol: None,
+        status: if has_status { Some(status) } else { None },
+    };
+    let r = Peer::convert_poll_message(pseudo, HeaderMap::new(), StreamId::from(1));
+    let accepted = r.is_ok();
+    if let Ok(resp) = &r {
+        if has_status {
+            assert!(resp.status() == status, "delivered status differs from the :status received");
+        }
+    }
+    // one labelled rule per assertion
+    if accepted {
+        assert!(has_status, "C13.cli R-status-required: response without :status delivered");
+    }
+    if accepted {
+        assert!(!(has_method || has_scheme || has_authority || has_path),
+            "C13.cli R-no-request-pseudo: response carrying request pseudo-header fields delivered");
+    }
+    kani::cover!(accepted && has_status, "accepted_valid");
+    kani::cover!(true, "end");
+    std::mem::forget(r);
+}
